@@ -93,6 +93,10 @@ void options(const Options& o);                 // call before run
 bool run(const std::function<void()>& mainFn);  // false: deadlock, step limit or replay divergence
 void yield_point(const char* tag);              // explicit scheduling point (no-op outside run)
 const std::vector<std::uint32_t>& choices();    // choices taken by the last run
+const std::vector<std::vector<std::uint32_t>>& alternatives(); // per entry of choices(): every choice that was enabled at that
+                                                // decision (time-outs included, spurious wake-ups only if enabled in Options) -
+                                                // replaying choices()[0..i) + [another alternative of i] explores the sibling schedule;
+                                                // a replay list that ends early is completed with "lowest enabled thread first"
 const std::vector<Event>& trace();              // events of the last run
 bool deadlocked();
 bool stepLimit();
